@@ -4,7 +4,7 @@ PATCH=$1; shift
 cd /verif
 git -C /repo apply $PATCH || { echo "patch does not apply to /repo"; exit 1; }
 for p in "$@"; do
-  ./check $p 2>&1 | grep -E "^VIOLATION|^KNOWN-FINDING|^$p |^ERROR" | cut -c1-260 | head -8
+  ./check $p 2>&1 | grep -E "^VIOLATION|^KNOWN-FINDING|^$p |^ERROR" | cut -c1-260 | grep -v "^  " | head -4
 done
 git -C /repo checkout -- . 
 git -C /repo status --short | head -3
